@@ -12,9 +12,9 @@ import progs
 from vlib import Inconclusive
 
 META = {
-    'technique': 'TLA+ session monitor (ProgMon.tla over Dataflow.tla): env pins each Result to the rows of its first evaluation, gone tracks discarded results; run/scan/run-with-result/discard histories executed in real sessions on both executors and judged by TLC',
-    'level_text': 'model_checking of recorded behaviour: histories of run / scan / rescan / run-with-result (through pipelined and shuffling operators applied directly to the result) / discard / concurrent scan||discard||run, generated from VERIF_SEED, are executed on the Local and Bigmachine(testsystem) executors; every successful use must observe the rows of the first evaluation (per shard where the first evaluation was observed), a scan of a discarded result may only fail or return the same rows, nothing may hang',
-    'level_note': 'machine-loss histories are covered by C02; rows are <<int,int>>',
+    'technique': 'TLA+ session monitor (ProgMon.tla over Dataflow.tla): env pins each Result to the rows of its first evaluation, gone tracks discarded results; run/scan/run-with-result/discard histories executed in real sessions on both executors and judged by TLC; executor level: TLA+ design model Exec.tla (bigmachineExecutor.Run/Discard, sliceMachine.Assign/Discard/Go under machine loss) checked exhaustively by TLC in the repaired shape and in three shapes known to be wrong (code as found, a repair that does not work, a seeded reordering), the counterexample schedule of the code as found replayed into the real executor through a gate at the BmOkSet hook, real sessions with machine kills at executor events judged by ExecMon.tla and validated against Exec.tla\'s actions by ExecTrace.tla (conformance/DRIFT)',
+    'level_text': 'model_checking of recorded behaviour: histories of run / scan / rescan / run-with-result (through pipelined and shuffling operators applied directly to the result) / discard / concurrent scan||discard||run, generated from VERIF_SEED, are executed on the Local and Bigmachine(testsystem) executors; every successful use must observe the rows of the first evaluation (per shard where the first evaluation was observed), a scan of a discarded result may only fail or return the same rows, nothing may hang; executor level: every interleaving of executor goroutines, machine monitor, Discard, kills and the (abstract) evaluator for a producer/consumer graph on three machines (33,614 states; 7.5 M states for two producers and two kills in thorough), with liveness (every root OK or a task failed once kills and discards stop); real sessions: Discard issued in the window between a root task being marked OK and being assigned to its machine (every root of 1-3 shards), machine killed at the n-th grant/call/reply/location/ok event, each followed by a second invocation consuming the result: no run may block, no task may be left RUNNING, rows of the first evaluation, success without loss and after one loss',
+    'level_note': 'machine-loss histories are covered by C02; rows are <<int,int>>; the window schedule needs the BmOkSet hook as a gate: with the repaired code the gate is reached before Run returns (no window), which the harness detects and reports as window=false',
 }
 
 
